@@ -11,6 +11,7 @@ package main
 //        n2 S R W N1 N2             two island calls with different N on the same objects (cache)
 //        load PATH                  name.Load in both packages
 //        pair S R W S' R' W' DEPTH PER   two names, their locations, equal or not
+//        routes N FROM-TO,…             the SDK client's routing table over real TLS stub servers: see c20route.go
 // reply: sdk=I|panic srv=F|panic|na path=P|panic again=same|diff
 //        sdk=I1,I2 srv=F1,F2
 //        sdk=S.R.W|panic srv=S.R.W|panic
@@ -222,6 +223,47 @@ func c20Gen(rng *rand.Rand, tier string, w *bufio.Writer) {
 		emitN(s, r, sw, 1000, 3, 2000)
 		emitN(s, r, sw, 1000, 1+rng.Intn(4), c20Pers[rng.Intn(len(c20Pers))])
 	}
+	// client routing table: partitions (shuffled), gaps, overlaps, empty and reversed ranges
+	fmt.Fprintln(w, "case 100")
+	for _, r := range []string{"10 1-5,6-10", "10 1-5,7-10", "10 1-6,5-10", "10 -", "8 0-3,4-12", "6 4-6,1-3,2-2", "5 5-1", "1 1-1", "12 9-12,1-4,5-8"} {
+		fmt.Fprintln(w, "routes "+r)
+	}
+	nr := 60
+	if tier == "thorough" {
+		nr = 1500
+	}
+	for i := 0; i < nr; i++ {
+		N := 1 + rng.Intn(24)
+		k := 1 + rng.Intn(6)
+		var rs []string
+		if rng.Intn(2) == 0 {
+			// a true partition of 1..N into at most k ranges, in random order
+			cuts := map[int]bool{N: true}
+			for len(cuts) < k && len(cuts) < N {
+				cuts[1+rng.Intn(N)] = true
+			}
+			from := 1
+			for c := 1; c <= N; c++ {
+				if cuts[c] {
+					rs = append(rs, fmt.Sprintf("%d-%d", from, c))
+					from = c + 1
+				}
+			}
+			rng.Shuffle(len(rs), func(a, b int) { rs[a], rs[b] = rs[b], rs[a] })
+			if rng.Intn(6) == 0 && len(rs) > 1 { // drop one range: a gap
+				rs = rs[1:]
+			}
+		} else {
+			for j := 0; j < k; j++ {
+				a, b := rng.Intn(N+2), rng.Intn(N+3)
+				if rng.Intn(5) != 0 && a > b {
+					a, b = b, a
+				}
+				rs = append(rs, fmt.Sprintf("%d-%d", a, b))
+			}
+		}
+		fmt.Fprintf(w, "routes %d %s\n", N, strings.Join(rs, ","))
+	}
 	for i := 0; i < n; i++ {
 		if i%500 == 0 {
 			fmt.Fprintf(w, "case %d\n", 1+i/500)
@@ -286,6 +328,12 @@ func c20Try(f func() string) (out string) {
 }
 
 func c20Run(in *bufio.Scanner, w *bufio.Writer) {
+	var farm *c20Farm
+	defer func() {
+		if farm != nil {
+			farm.Stop()
+		}
+	}()
 	for in.Scan() {
 		line := in.Text()
 		f := strings.Split(line, " ")
@@ -293,6 +341,18 @@ func c20Run(in *bufio.Scanner, w *bufio.Writer) {
 		switch {
 		case f[0] == "case":
 			fmt.Fprintln(w, line)
+		case f[0] == "routes" && len(f) == 3:
+			if farm == nil {
+				miscQuiet()
+				var err error
+				if farm, err = c20NewFarm(); err != nil {
+					fmt.Fprintln(os.Stderr, "c20 farm:", err)
+					fmt.Fprintln(w, "err farm")
+					farm = nil
+					continue
+				}
+			}
+			fmt.Fprintln(w, c20Routes(farm, f[1], f[2]))
 		case f[0] == "n" && len(f) == 7:
 			s, o1 := c20Unhex(f[1])
 			r, o2 := c20Unhex(f[2])
